@@ -190,6 +190,112 @@ func runC15(w *World, r *Report) {
 	c15Gate(w, r, sp)
 	c15ExecOnlyAuthorized(w, r)
 	c15EveryUsageChecked(w, r)
+	c15NoRefDropped(w, r, sp)
+}
+
+// c15NoRefDropped: R-C15-7.  Tables() is the over-approximation the authorizers rely on: every
+// *ast.TableRef the walker meets must be reported.  In each closure of Tables() that tests a node
+// for being a *ast.TableRef, every path from the ok-edge to the closure's return appends to the
+// result; a path that leaves a reference out (because of its name, a flag, a set built elsewhere)
+// makes the statement read a table nobody authorized.
+func c15NoRefDropped(w *World, r *Report, sp *packages.Package) {
+	r.Rule("R-C15-7", "no table reference is left out: in Tables() every path from the point where a node is found to be a *ast.TableRef to the end of the visitor appends a usage to the result", 1)
+
+	tf := w.ssaFunc(sp, "Sqlparse.Tables")
+	if tf == nil {
+		r.Anchor("R-C15-7", "sqlparse.Sqlparse.Tables")
+
+		return
+	}
+
+	var closures []*ssa.Function
+
+	var add func(f *ssa.Function)
+
+	add = func(f *ssa.Function) {
+		for _, a := range f.AnonFuncs {
+			closures = append(closures, a)
+			add(a)
+		}
+	}
+
+	add(tf)
+
+	n := 0
+
+	for _, fn := range closures {
+		for _, b := range fn.Blocks {
+			ifi, ok := b.Instrs[len(b.Instrs)-1].(*ssa.If)
+			if !ok {
+				continue
+			}
+
+			isRefTest := false
+
+			for _, f := range edgeFacts(ifi.Cond, true) {
+				if f.Kind != "true" {
+					continue
+				}
+
+				if ex, ok := f.V.(*ssa.Extract); ok && ex.Index == 1 {
+					if ta, ok := ex.Tuple.(*ssa.TypeAssert); ok && ta.CommaOk {
+						if nt := namedOf(ta.AssertedType); nt != nil && nt.Obj().Name() == "TableRef" {
+							isRefTest = true
+						}
+					}
+				}
+			}
+
+			if !isRefTest {
+				continue
+			}
+
+			n++
+
+			key := fnKey(fn) + "|every TableRef is reported"
+			if n > 1 {
+				key += "#" + sprintInt(n)
+			}
+
+			// appends: a store into the captured result slice (the cell named out)
+			isAppend := func(in ssa.Instruction) bool {
+				st, ok := in.(*ssa.Store)
+				if !ok {
+					return false
+				}
+
+				switch a := st.Addr.(type) {
+				case *ssa.FreeVar:
+					return a.Name() == "out"
+				case *ssa.Alloc:
+					return a.Comment == "out"
+				}
+
+				return false
+			}
+
+			first := b.Succs[0].Instrs[0]
+			if isAppend(first) {
+				r.Discharge("R-C15-7", key, w.pos(ifi.Pos()), "")
+
+				continue
+			}
+
+			if exit := pathAvoiding(first, nil, isAppend, func(in ssa.Instruction) bool {
+				_, isRet := in.(*ssa.Return)
+
+				return isRet
+			}); exit != nil {
+				r.Violate("R-C15-7", key, w.pos(ifi.Cond.Pos()), "a table reference can be skipped (return at "+w.pos(exit.Pos())+" without appending it): the authorizers never see that table, so the statement reads it without any grant being checked")
+			} else {
+				r.Discharge("R-C15-7", key, w.pos(ifi.Pos()), "appended on every path")
+			}
+		}
+	}
+
+	if n == 0 {
+		r.Anchor("R-C15-7", "the *ast.TableRef test in Tables()'s visitor")
+	}
 }
 
 // c15EveryUsageChecked: R-C15-6. In the loop over p.Tables() every iteration
